@@ -7,6 +7,7 @@ import (
 	"fmt"
 	"reflect"
 	"sort"
+	"strconv"
 	"strings"
 
 	"github.com/hashicorp/eventlogger"
@@ -85,6 +86,10 @@ func mkTagMap(c *canary, p *prng) (tagMap, []encrypt.PointerTag) {
 	if p.chance(1, 2) {
 		m["nested"] = map[string]interface{}{"in": c.prot(), "other": c.prot()}
 		tags = append(tags, encrypt.PointerTag{Pointer: "/nested/in", Classification: encrypt.SensitiveClassification})
+	}
+	if p.chance(1, 2) {
+		m["list"] = []interface{}{map[string]interface{}{"name": c.prot(), "other": c.prot()}}
+		tags = append(tags, encrypt.PointerTag{Pointer: "/list/0/name", Classification: encrypt.SensitiveClassification})
 	}
 	for i := len(tags) - 1; i > 0; i-- {
 		j := p.intn(i + 1)
@@ -377,6 +382,15 @@ func deepShapes(p *prng, n int, st *stats, oracle func(string, ...any)) {
 				var cur interface{} = map[string]interface{}(om)
 				okPath := true
 				for _, seg := range strings.Split(strings.TrimPrefix(t.Pointer, "/"), "/") {
+					if sl, isS := cur.([]interface{}); isS {
+						ix, cerr := strconv.Atoi(seg)
+						if cerr != nil || ix >= len(sl) {
+							okPath = false
+							break
+						}
+						cur = sl[ix]
+						continue
+					}
 					mm, isM := cur.(map[string]interface{})
 					if !isM {
 						okPath = false
